@@ -369,7 +369,7 @@ func runC08(w *World, r *Report) {
 
 	r.rule("drain", "after a successful call of a lock-holding stream every path to a function exit (or back to the call) crosses the exhausted edge of a receive on the data channel, directly or in a helper that drains it", 5)
 	r.rule("no-send-on-stop", "no send on the stop channel of a stream whose producer closes it (send after close panics; a send does not release a parked producer)", 0)
-	r.rule("reentry-under-ledger-lock", "a consumption region that re-enters the graph lock holds the ledger lock, so no graph writer can queue between producer and consumer", 5)
+	r.rule("reentry-under-ledger-lock", "a consumption region that re-enters the graph lock holds the ledger lock, so no graph writer can queue between producer and consumer", 3)
 	r.rule("graph-writers-under-ledger-lock", "every call that takes the graph lock exclusively holds AccountingBook.mux exclusively", 6)
 	r.rule("no-foreign-blocking-op", "no blocking channel operation on another channel inside a consumption region or while a repo lock is held, unless it is a select with a ctx.Done()/default arm", 0)
 
@@ -475,6 +475,12 @@ func runC08(w *World, r *Report) {
 					case *ssa.Call:
 						if _, ok := takers[calleeName(x)]; ok {
 							reenters = true
+						}
+						// a repo helper called from the region that itself takes the graph lock
+						if cal := x.Call.StaticCallee(); cal != nil && isRepoFunc(cal) {
+							if len(deepCalls(cal, func(c ssa.CallInstruction) bool { _, ok := takers[calleeName(c)]; return ok }, 1)) > 0 {
+								reenters = true
+							}
 						}
 					case *ssa.Send:
 						if !sameVal(x.Chan, data) {
